@@ -24,18 +24,17 @@ def oracle(case, obs):
 
 
 def finding(case, obs):
-    """Recorded classes (mirror of the flags of Engine/RespMon.v): a = a command cancelled by a pause/suspension leaves
-    None as the response its plan receives; b = a suspension request rejected by the state machine after it pushed its
-    frame, while the plan's command was in flight.  Anything else is outside the classes."""
+    """Recorded class (mirror of the flag of Engine/RespMon.v): a = a command cancelled by a pause/suspension leaves
+    None as the response its plan receives.  Anything else is outside the class."""
     if obs.get("errors"):
         return None
     bad = rt.check_responses(obs)
     if rt.check_uids(obs):
         return None
     kinds = {k for k, _ in bad}
-    if not kinds or "bad" in kinds or "t" in kinds:
+    if kinds != {"a"}:
         return None
-    return "b" if "b" in kinds else "a"
+    return "a"
 
 
 def coq_term(case, obs):
@@ -47,9 +46,9 @@ def coq_term(case, obs):
         e = engine_encode.Enc(case, obs).encode()
     except engine_encode.Unsupported:
         return None
-    acc, a, b, t = rt.coq_agree_args(obs, 0)
+    acc, a = rt.coq_agree_args(obs, 0)
     cb = engine_encode.cb
     return ("let tp := %s in let ld := %s in let ev := %s in "
-            "andb (check tp ld %s %s %s ev %s) (resp_agree (chk 0 mon0 (model_tr tp ld %s %s %s ev)) %s %s %s %s)"
+            "andb (check tp ld %s %s %s ev %s) (resp_agree (chk 0 mon0 (model_tr tp ld %s %s %s ev)) %s %s)"
             % (e["tapes"], e["ledger"], e["evs"], e["paus"], e["stag"], e["rec"], e["obs"],
-               e["paus"], e["stag"], e["rec"], cb(acc), cb(a), cb(b), cb(t)))
+               e["paus"], e["stag"], e["rec"], cb(acc), cb(a)))
